@@ -98,6 +98,58 @@ func engineREC(w *World, tier string) *EngineResult {
 		}
 		if guarded {
 			r.holds("REC", fnKey(fn), construct, "recursion guarded by "+why, pos)
+			// REC-mono: a visited set only grows. Removing a node again on the way back turns
+			// "each node once" into "each path once": on a diamond-shaped graph the walk becomes
+			// exponential (and the watchdog fires) although every cycle is still cut.
+			for _, prm := range fn.Params {
+				if _, isMap := prm.Type().Underlying().(*types.Map); !isMap || !strings.HasPrefix(why, "visited set "+prm.Name()) {
+					continue
+				}
+				removed := ""
+				scan := func(f *ssa.Function, m ssa.Value) {
+					for _, b := range f.Blocks {
+						for _, ins := range b.Instrs {
+							var cc *ssa.CallCommon
+							switch x := ins.(type) {
+							case *ssa.Call:
+								cc = &x.Call
+							case *ssa.Defer:
+								cc = &x.Call
+							}
+							if cc == nil {
+								continue
+							}
+							if bi, ok := cc.Value.(*ssa.Builtin); ok && bi.Name() == "delete" && len(cc.Args) > 0 && cc.Args[0] == m {
+								removed = w.pos(instrPos(ins))
+							}
+						}
+					}
+				}
+				scan(fn, prm)
+				for _, an := range fn.AnonFuncs {
+					for i, fv := range an.FreeVars {
+						// the closure captures the parameter (through its cell)
+						_ = i
+						if fv.Name() == prm.Name() {
+							for _, b := range an.Blocks {
+								for _, ins := range b.Instrs {
+									if c, ok := ins.(*ssa.Call); ok {
+										if bi, ok := c.Call.Value.(*ssa.Builtin); ok && bi.Name() == "delete" {
+											removed = w.pos(instrPos(ins))
+										}
+									}
+								}
+							}
+						}
+					}
+				}
+				c3 := "visited set of the walk over " + globalName(g) + " only grows"
+				if removed == "" {
+					r.holds("REC-mono", fnKey(fn), c3, "no entry is ever removed from the visited set", pos)
+				} else {
+					r.violated("REC-mono", fnKey(fn), c3, "an entry is removed from the visited set again at "+removed+": the set tracks the current path only, every node is expanded once per path that reaches it, and a diamond-shaped hierarchy takes exponential time (the watchdog answers `timeout`)", pos)
+				}
+			}
 			// REC-key: a visited set must be keyed by the identity of a node of the graph that is
 			// walked — the key type of the visited map is the key type of the graph map. A set
 			// keyed by a projection (the short class name) prunes distinct nodes that share it.
